@@ -106,4 +106,244 @@ theorem src_round_rs_impl_DurationRound_for_DateTime : C15_src_round_rs_impl_Dur
 theorem src_time_delta_rs_fn_checked_mul : C15_src_time_delta_rs_fn_checked_mul =
     ["&", "self", "v1", "i32", "->", "Option", "<", "TimeDelta", ">", "v2", "self", "v3", "as", "i64", "*", "v1", "as", "i64", "let(", "v4", "v3", "div_mod_floor_64(", "v2", "NANOS_PER_SEC", "as", "i64", "v5", "i128", "self", "v5", "as", "i128", "*", "v1", "as", "i128", "+", "v4", "as", "i128", "if", "v5", "<=", "i64", "MIN", "as", "i128", "||", "v5", ">=", "i64", "MAX", "as", "i128", "return", "None", "TimeDelta", "new(", "v5", "as", "i64", "v3", "as", "u32"] := by decide +kernel
 
+/-- callee src/datetime/mod.rs:fn from_naive_utc_and_offset -/
+theorem callee_src_datetime_mod_rs_fn_from_naive_utc_and_offset : C15_callee_src_datetime_mod_rs_fn_from_naive_utc_and_offset =
+    ["v1", "NaiveDateTime", "v2", "Tz", "Offset", "->", "DateTime", "<", "Tz", ">", "DateTime", "v1", "v2"] := by decide +kernel
+
+/-- callee src/format/formatting.rs:fn write_hundreds -/
+theorem callee_src_format_formatting_rs_fn_write_hundreds : C15_callee_src_format_formatting_rs_fn_write_hundreds =
+    ["v1", "&", "Write", "v2", "u8", "->", "v3", "Result", "if", "v2", ">=", "100", "return", "Err(", "v3", "Error", "v4", "b'0'", "+", "v2", "/", "10", "v5", "b'0'", "+", "v2", "%", "10", "v1", "write_char(", "v4", "as", "char", "?", "v1", "write_char(", "v5", "as", "char"] := by decide +kernel
+
+/-- callee src/format/formatting.rs:fn write_rfc3339 -/
+theorem callee_src_format_formatting_rs_fn_write_rfc3339 : C15_callee_src_format_formatting_rs_fn_write_rfc3339 =
+    ["v1", "&", "Write", "v2", "NaiveDateTime", "v3", "FixedOffset", "v4", "SecondsFormat", "v5", "bool", "->", "v6", "Result", "v7", "v2", "date(", "year(", "if(", "0", "..=", "9999", "contains(", "&", "v7", "write_hundreds(", "v1", "v7", "/", "100", "as", "u8", "?", "write_hundreds(", "v1", "v7", "%", "100", "as", "u8", "?", "else", "write!(", "v1", "\"{:+05}\"", "v7", "?", "v1", "write_char(", "'-'", "?", "write_hundreds(", "v1", "v2", "date(", "month(", "as", "u8", "?", "v1", "write_char(", "'-'", "?", "write_hundreds(", "v1", "v2", "date(", "day(", "as", "u8", "?", "v1", "write_char(", "'T'", "?", "let(", "v8", "v9", "v10", "v2", "time(", "hms(", "v11", "v2", "nanosecond(", "if", "v11", ">=", "1000000000", "v10", "+=", "1", "v11", "-=", "1000000000", "write_hundreds(", "v1", "v8", "as", "u8", "?", "v1", "write_char(", "':'", "?", "write_hundreds(", "v1", "v9", "as", "u8", "?", "v1", "write_char(", "':'", "?", "v10", "v10", "write_hundreds(", "v1", "v10", "as", "u8", "?", "match", "v4", "SecondsFormat", "Secs", "=>", "SecondsFormat", "Millis", "=>", "write!(", "v1", "\".{:03}\"", "v11", "/", "1000000", "?", "SecondsFormat", "Micros", "=>", "write!(", "v1", "\".{:06}\"", "v11", "/", "1000", "?", "SecondsFormat", "Nanos", "=>", "write!(", "v1", "\".{:09}\"", "v11", "?", "SecondsFormat", "AutoSi", "=>", "if", "v11", "==", "0", "else", "if", "v11", "%", "1000000", "==", "0", "write!(", "v1", "\".{:03}\"", "v11", "/", "1000000", "?", "else", "if", "v11", "%", "1000", "==", "0", "write!(", "v1", "\".{:06}\"", "v11", "/", "1000", "?", "else", "write!(", "v1", "\".{:09}\"", "v11", "?", "SecondsFormat", "__NonExhaustive", "=>", "unreachable!(", "OffsetFormat", "v12", "OffsetPrecision", "Minutes", "v13", "Colons", "Colon", "v14", "v5", "v15", "Pad", "Zero", "format(", "v1", "v3"] := by decide +kernel
+
+/-- callee src/format/locales.rs:fn t_fmt_ampm -/
+theorem callee_src_format_locales_rs_fn_t_fmt_ampm : C15_callee_src_format_locales_rs_fn_t_fmt_ampm =
+    ["v1", "Locale", "->", "&", "str", "locale_match!(", "v1", "=>", "LC_TIME", "T_FMT_AMPM"] := by decide +kernel
+
+/-- callee src/format/mod.rs:fn internal_fixed -/
+theorem callee_src_format_mod_rs_fn_internal_fixed : C15_callee_src_format_mod_rs_fn_internal_fixed =
+    ["v1", "InternalInternal", "->", "Item", "<", ">", "Item", "Fixed(", "Fixed", "Internal(", "InternalFixed", "v1"] := by decide +kernel
+
+/-- callee src/format/mod.rs:fn num -/
+theorem callee_src_format_mod_rs_fn_num : C15_callee_src_format_mod_rs_fn_num =
+    ["v1", "Numeric", "->", "Item", "<", ">", "Item", "Numeric(", "v1", "Pad", "None"] := by decide +kernel
+
+/-- callee src/format/mod.rs:fn num0 -/
+theorem callee_src_format_mod_rs_fn_num0 : C15_callee_src_format_mod_rs_fn_num0 =
+    ["v1", "Numeric", "->", "Item", "<", ">", "Item", "Numeric(", "v1", "Pad", "Zero"] := by decide +kernel
+
+/-- callee src/format/mod.rs:fn nums -/
+theorem callee_src_format_mod_rs_fn_nums : C15_callee_src_format_mod_rs_fn_nums =
+    ["v1", "Numeric", "->", "Item", "<", ">", "Item", "Numeric(", "v1", "Pad", "Space"] := by decide +kernel
+
+/-- callee src/format/parse.rs:fn parse_rfc2822 -/
+theorem callee_src_format_parse_rs_fn_parse_rfc2822 : C15_callee_src_format_parse_rs_fn_parse_rfc2822 =
+    ["<", ">", "v1", "&", "Parsed", "v2", "&", "str", "->", "ParseResult", "<", "&", "str", ">", "v3", "!", "v4", "v5", "v6", "=>", "let(", "v7", "v8", "v5", "?", "v2", "v7", "v8", "v2", "v2", "trim_start(", "if", "Ok(", "v7", "v9", "v10", "short_weekday(", "v2", "if", "!", "v7", "starts_with(", "','", "return", "Err(", "INVALID", "v2", "&", "v7", "1", "..", "v1", "set_weekday(", "v9", "?", "v2", "v2", "trim_start(", "v1", "set_day(", "try_consume!(", "v10", "number(", "v2", "1", "2", "?", "v2", "v10", "space(", "v2", "?", "v1", "set_month(", "1", "+", "i64", "from(", "try_consume!(", "v10", "short_month0(", "v2", "?", "v2", "v10", "space(", "v2", "?", "v11", "v2", "len(", "v12", "try_consume!(", "v10", "number(", "v2", "2", "usize", "MAX", "v13", "v11", "-", "v2", "len(", "match(", "v13", "v12", "2", "0", "..=", "49", "=>", "v12", "+=", "2000", "2", "50", "..=", "99", "=>", "v12", "+=", "1900", "3", "v14", "=>", "v12", "+=", "1900", "v14", "v14", "=>", "v1", "set_year(", "v12", "?", "v2", "v10", "space(", "v2", "?", "v1", "set_hour(", "try_consume!(", "v10", "number(", "v2", "2", "2", "?", "v2", "v10", "char(", "v2", "trim_start(", "b':'", "?", "trim_start(", "v1", "set_minute(", "try_consume!(", "v10", "number(", "v2", "2", "2", "?", "if", "Ok(", "v7", "v10", "char(", "v2", "trim_start(", "b':'", "v1", "set_second(", "try_consume!(", "v10", "number(", "v7", "2", "2", "?", "v2", "v10", "space(", "v2", "?", "v1", "set_offset(", "i64", "from(", "try_consume!(", "v10", "timezone_offset_2822(", "v2", "?", "while", "Ok(", "v15", "v10", "comment_2822(", "v2", "v2", "v15", "Ok(", "v2"] := by decide +kernel
+
+/-- callee src/format/parse.rs:fn parse_rfc3339_relaxed -/
+theorem callee_src_format_parse_rs_fn_parse_rfc3339_relaxed : C15_callee_src_format_parse_rs_fn_parse_rfc3339_relaxed =
+    ["<", ">", "v1", "&", "Parsed", "v2", "&", "str", "->", "ParseResult", "<", "&", "str", ">", "DATE_ITEMS", "&", "Item", "<", ">", "&", "Item", "Numeric(", "Numeric", "Year", "Pad", "Zero", "Item", "Space(", "\"\"", "Item", "Literal(", "\"-\"", "Item", "Numeric(", "Numeric", "Month", "Pad", "Zero", "Item", "Space(", "\"\"", "Item", "Literal(", "\"-\"", "Item", "Numeric(", "Numeric", "Day", "Pad", "Zero", "TIME_ITEMS", "&", "Item", "<", ">", "&", "Item", "Numeric(", "Numeric", "Hour", "Pad", "Zero", "Item", "Space(", "\"\"", "Item", "Literal(", "\":\"", "Item", "Numeric(", "Numeric", "Minute", "Pad", "Zero", "Item", "Space(", "\"\"", "Item", "Literal(", "\":\"", "Item", "Numeric(", "Numeric", "Second", "Pad", "Zero", "Item", "Fixed(", "Fixed", "Nanosecond", "Item", "Space(", "\"\"", "v2", "parse_internal(", "v1", "v2", "DATE_ITEMS", "iter(", "?", "v2", "match", "v2", "as_bytes(", "first(", "Some(", "&", "b't'", "|", "&", "b'T'", "|", "&", "b' '", "=>", "&", "v2", "1", "..", "Some(", "v3", "=>", "return", "Err(", "INVALID", "None", "=>", "return", "Err(", "TOO_SHORT", "v2", "parse_internal(", "v1", "v2", "TIME_ITEMS", "iter(", "?", "v2", "v2", "trim_start(", "let(", "v2", "v4", "if", "v2", "len(", ">=", "3", "&&", "\"UTC\"", "as_bytes(", "eq_ignore_ascii_case(", "&", "v2", "as_bytes(", "..", "&", "v2", "3", "..", "0", "else", "v5", "timezone_offset(", "v2", "v5", "v6", "true", "false", "true", "?", "v1", "set_offset(", "i64", "from(", "v4", "?", "Ok(", "v2"] := by decide +kernel
+
+/-- callee src/format/parsed.rs:fn resolve_week_date -/
+theorem callee_src_format_parsed_rs_fn_resolve_week_date : C15_callee_src_format_parsed_rs_fn_resolve_week_date =
+    ["v1", "i32", "v2", "u32", "v3", "Weekday", "v4", "Weekday", "->", "ParseResult", "<", "NaiveDate", ">", "if", "v2", ">", "53", "return", "Err(", "OUT_OF_RANGE", "v5", "NaiveDate", "from_yo_opt(", "v1", "1", "ok_or(", "OUT_OF_RANGE", "?", "v6", "1", "+", "v4", "days_since(", "v5", "weekday(", "as", "i32", "v3", "v3", "days_since(", "v4", "as", "i32", "v7", "v6", "+", "v2", "as", "i32", "-", "1", "*", "7", "+", "v3", "if", "v7", "<=", "0", "return", "Err(", "IMPOSSIBLE", "v5", "with_ordinal(", "v7", "as", "u32", "ok_or(", "IMPOSSIBLE"] := by decide +kernel
+
+/-- callee src/format/parsed.rs:fn resolve_year -/
+theorem callee_src_format_parsed_rs_fn_resolve_year : C15_callee_src_format_parsed_rs_fn_resolve_year =
+    ["v1", "Option", "<", "i32", ">", "v2", "Option", "<", "i32", ">", "v3", "Option", "<", "i32", ">", "->", "ParseResult", "<", "Option", "<", "i32", ">>", "match(", "v1", "v2", "v3", "v1", "None", "None", "=>", "Ok(", "v1", "Some(", "v1", "v2", "v3", "Some(", "0", "..=", "99", "|", "Some(", "v1", "v2", "v3", "None", "=>", "if", "v1", "<", "0", "return", "Err(", "IMPOSSIBLE", "v4", "v1", "/", "100", "v5", "v1", "%", "100", "if", "v2", "unwrap_or(", "v4", "==", "v4", "&&", "v3", "unwrap_or(", "v5", "==", "v5", "Ok(", "Some(", "v1", "else", "Err(", "IMPOSSIBLE", "None", "Some(", "v2", "Some(", "v3", "0", "..=", "99", "=>", "if", "v2", "<", "0", "return", "Err(", "IMPOSSIBLE", "v1", "v2", "checked_mul(", "100", "and_then(", "|", "v6", "|", "v6", "checked_add(", "v3", "Ok(", "Some(", "v1", "ok_or(", "OUT_OF_RANGE", "?", "None", "None", "Some(", "v3", "0", "..=", "99", "=>", "Ok(", "Some(", "v3", "+", "if", "v3", "<", "70", "2000", "else", "1900", "None", "Some(", "v7", "None", "=>", "Err(", "NOT_ENOUGH", "v7", "v7", "Some(", "v7", "=>", "Err(", "OUT_OF_RANGE"] := by decide +kernel
+
+/-- callee src/format/parsed.rs:fn set_ampm -/
+theorem callee_src_format_parsed_rs_fn_set_ampm : C15_callee_src_format_parsed_rs_fn_set_ampm =
+    ["&", "self", "v1", "bool", "->", "ParseResult", "<", ">", "set_if_consistent(", "&", "self", "v2", "v1", "as", "u32"] := by decide +kernel
+
+/-- callee src/format/parsed.rs:fn set_day -/
+theorem callee_src_format_parsed_rs_fn_set_day : C15_callee_src_format_parsed_rs_fn_set_day =
+    ["&", "self", "v1", "i64", "->", "ParseResult", "<", ">", "if!(", "1", "..=", "31", "contains(", "&", "v1", "return", "Err(", "OUT_OF_RANGE", "set_if_consistent(", "&", "self", "v2", "v1", "as", "u32"] := by decide +kernel
+
+/-- callee src/format/parsed.rs:fn set_hour -/
+theorem callee_src_format_parsed_rs_fn_set_hour : C15_callee_src_format_parsed_rs_fn_set_hour =
+    ["&", "self", "v1", "i64", "->", "ParseResult", "<", ">", "let(", "v2", "v3", "match", "v1", "v4", "0", "..=", "11", "=>", "0", "v4", "as", "u32", "v4", "12", "..=", "23", "=>", "1", "v4", "as", "u32", "-", "12", "v5", "=>", "return", "Err(", "OUT_OF_RANGE", "set_if_consistent(", "&", "self", "v2", "v2", "?", "set_if_consistent(", "&", "self", "v3", "v3"] := by decide +kernel
+
+/-- callee src/format/parsed.rs:fn set_if_consistent -/
+theorem callee_src_format_parsed_rs_fn_set_if_consistent : C15_callee_src_format_parsed_rs_fn_set_if_consistent =
+    ["<", "T", "PartialEq", ">", "v1", "&", "Option", "<", "T", ">", "v2", "T", "->", "ParseResult", "<", ">", "match", "v1", "Some(", "v1", "if", "*", "v1", "!=", "v2", "=>", "Err(", "IMPOSSIBLE", "v3", "=>", "*", "v1", "Some(", "v2", "Ok("] := by decide +kernel
+
+/-- callee src/format/parsed.rs:fn set_minute -/
+theorem callee_src_format_parsed_rs_fn_set_minute : C15_callee_src_format_parsed_rs_fn_set_minute =
+    ["&", "self", "v1", "i64", "->", "ParseResult", "<", ">", "if!(", "0", "..=", "59", "contains(", "&", "v1", "return", "Err(", "OUT_OF_RANGE", "set_if_consistent(", "&", "self", "v2", "v1", "as", "u32"] := by decide +kernel
+
+/-- callee src/format/parsed.rs:fn set_month -/
+theorem callee_src_format_parsed_rs_fn_set_month : C15_callee_src_format_parsed_rs_fn_set_month =
+    ["&", "self", "v1", "i64", "->", "ParseResult", "<", ">", "if!(", "1", "..=", "12", "contains(", "&", "v1", "return", "Err(", "OUT_OF_RANGE", "set_if_consistent(", "&", "self", "v2", "v1", "as", "u32"] := by decide +kernel
+
+/-- callee src/format/parsed.rs:fn set_nanosecond -/
+theorem callee_src_format_parsed_rs_fn_set_nanosecond : C15_callee_src_format_parsed_rs_fn_set_nanosecond =
+    ["&", "self", "v1", "i64", "->", "ParseResult", "<", ">", "if!(", "0", "..=", "999999999", "contains(", "&", "v1", "return", "Err(", "OUT_OF_RANGE", "set_if_consistent(", "&", "self", "v2", "v1", "as", "u32"] := by decide +kernel
+
+/-- callee src/format/parsed.rs:fn set_offset -/
+theorem callee_src_format_parsed_rs_fn_set_offset : C15_callee_src_format_parsed_rs_fn_set_offset =
+    ["&", "self", "v1", "i64", "->", "ParseResult", "<", ">", "set_if_consistent(", "&", "self", "v2", "i32", "try_from(", "v1", "map_err(", "|", "v3", "|", "OUT_OF_RANGE", "?"] := by decide +kernel
+
+/-- callee src/format/parsed.rs:fn set_ordinal -/
+theorem callee_src_format_parsed_rs_fn_set_ordinal : C15_callee_src_format_parsed_rs_fn_set_ordinal =
+    ["&", "self", "v1", "i64", "->", "ParseResult", "<", ">", "if!(", "1", "..=", "366", "contains(", "&", "v1", "return", "Err(", "OUT_OF_RANGE", "set_if_consistent(", "&", "self", "v2", "v1", "as", "u32"] := by decide +kernel
+
+/-- callee src/format/parsed.rs:fn set_second -/
+theorem callee_src_format_parsed_rs_fn_set_second : C15_callee_src_format_parsed_rs_fn_set_second =
+    ["&", "self", "v1", "i64", "->", "ParseResult", "<", ">", "if!(", "0", "..=", "60", "contains(", "&", "v1", "return", "Err(", "OUT_OF_RANGE", "set_if_consistent(", "&", "self", "v2", "v1", "as", "u32"] := by decide +kernel
+
+/-- callee src/format/parsed.rs:fn set_weekday -/
+theorem callee_src_format_parsed_rs_fn_set_weekday : C15_callee_src_format_parsed_rs_fn_set_weekday =
+    ["&", "self", "v1", "Weekday", "->", "ParseResult", "<", ">", "set_if_consistent(", "&", "self", "v2", "v1"] := by decide +kernel
+
+/-- callee src/format/parsed.rs:fn set_year -/
+theorem callee_src_format_parsed_rs_fn_set_year : C15_callee_src_format_parsed_rs_fn_set_year =
+    ["&", "self", "v1", "i64", "->", "ParseResult", "<", ">", "set_if_consistent(", "&", "self", "v2", "i32", "try_from(", "v1", "map_err(", "|", "v3", "|", "OUT_OF_RANGE", "?"] := by decide +kernel
+
+/-- callee src/format/parsed.rs:fn to_naive_date -/
+theorem callee_src_format_parsed_rs_fn_to_naive_date : C15_callee_src_format_parsed_rs_fn_to_naive_date =
+    ["&", "self", "->", "ParseResult", "<", "NaiveDate", ">", "resolve_year(", "v1", "Option", "<", "i32", ">", "v2", "Option", "<", "i32", ">", "v3", "Option", "<", "i32", ">", "->", "ParseResult", "<", "Option", "<", "i32", ">>", "match(", "v1", "v2", "v3", "v1", "None", "None", "=>", "Ok(", "v1", "Some(", "v1", "v2", "v3", "Some(", "0", "..=", "99", "|", "Some(", "v1", "v2", "v3", "None", "=>", "if", "v1", "<", "0", "return", "Err(", "IMPOSSIBLE", "v4", "v1", "/", "100", "v5", "v1", "%", "100", "if", "v2", "unwrap_or(", "v4", "==", "v4", "&&", "v3", "unwrap_or(", "v5", "==", "v5", "Ok(", "Some(", "v1", "else", "Err(", "IMPOSSIBLE", "None", "Some(", "v2", "Some(", "v3", "0", "..=", "99", "=>", "if", "v2", "<", "0", "return", "Err(", "IMPOSSIBLE", "v1", "v2", "checked_mul(", "100", "and_then(", "|", "v6", "|", "v6", "checked_add(", "v3", "Ok(", "Some(", "v1", "ok_or(", "OUT_OF_RANGE", "?", "None", "None", "Some(", "v3", "0", "..=", "99", "=>", "Ok(", "Some(", "v3", "+", "if", "v3", "<", "70", "2000", "else", "1900", "None", "Some(", "v7", "None", "=>", "Err(", "NOT_ENOUGH", "v7", "v7", "Some(", "v7", "=>", "Err(", "OUT_OF_RANGE", "v8", "resolve_year(", "self", "v9", "self", "v10", "self", "v11", "?", "v12", "resolve_year(", "self", "v13", "self", "v14", "self", "v15", "?", "v16", "|", "v17", "NaiveDate", "|", "v9", "v17", "year(", "let(", "v10", "v11", "if", "v9", ">=", "0", "Some(", "v9", "/", "100", "Some(", "v9", "%", "100", "else", "None", "None", "v18", "v17", "month(", "v19", "v17", "day(", "self", "v9", "unwrap_or(", "v9", "==", "v9", "&&", "self", "v10", "or(", "v10", "==", "v10", "&&", "self", "v11", "or(", "v11", "==", "v11", "&&", "self", "v18", "unwrap_or(", "v18", "==", "v18", "&&", "self", "v19", "unwrap_or(", "v19", "==", "v19", "v20", "|", "v17", "NaiveDate", "|", "v21", "v17", "iso_week(", "v13", "v21", "year(", "v22", "v21", "week(", "v23", "v17", "weekday(", "let(", "v14", "v15", "if", "v13", ">=", "0", "Some(", "v13", "/", "100", "Some(", "v13", "%", "100", "else", "None", "None", "self", "v13", "unwrap_or(", "v13", "==", "v13", "&&", "self", "v14", "or(", "v14", "==", "v14", "&&", "self", "v15", "or(", "v15", "==", "v15", "&&", "self", "v22", "unwrap_or(", "v22", "==", "v22", "&&", "self", "v23", "unwrap_or(", "v23", "==", "v23", "v24", "|", "v17", "NaiveDate", "|", "v25", "v17", "ordinal(", "v26", "v17", "weeks_from(", "Weekday", "Sun", "v27", "v17", "weeks_from(", "Weekday", "Mon", "self", "v25", "unwrap_or(", "v25", "==", "v25", "&&", "self", "v26", "map_or(", "v26", "|", "v6", "|", "v6", "as", "i32", "==", "v26", "&&", "self", "v27", "map_or(", "v27", "|", "v6", "|", "v6", "as", "i32", "==", "v27", "let(", "v28", "v29", "match(", "v8", "v12", "self", "Some(", "v9", "v7", "&", "Parsed", "v18", "Some(", "v18", "v19", "Some(", "v19", "..", "=>", "v17", "NaiveDate", "from_ymd_opt(", "v9", "v18", "v19", "ok_or(", "OUT_OF_RANGE", "?", "verify_isoweekdate(", "v17", "&&", "verify_ordinal(", "v17", "v17", "Some(", "v9", "v7", "&", "Parsed", "v25", "Some(", "v25", "..", "=>", "v17", "NaiveDate", "from_yo_opt(", "v9", "v25", "ok_or(", "OUT_OF_RANGE", "?", "verify_ymd(", "v17", "&&", "verify_isoweekdate(", "v17", "&&", "verify_ordinal(", "v17", "v17", "Some(", "v9", "v7", "&", "Parsed", "v26", "Some(", "v21", "v23", "Some(", "v23", "..", "=>", "v17", "resolve_week_date(", "v9", "v21", "v23", "Weekday", "Sun", "?", "verify_ymd(", "v17", "&&", "verify_isoweekdate(", "v17", "&&", "verify_ordinal(", "v17", "v17", "Some(", "v9", "v7", "&", "Parsed", "v27", "Some(", "v21", "v23", "Some(", "v23", "..", "=>", "v17", "resolve_week_date(", "v9", "v21", "v23", "Weekday", "Mon", "?", "verify_ymd(", "v17", "&&", "verify_isoweekdate(", "v17", "&&", "verify_ordinal(", "v17", "v17", "v7", "Some(", "v13", "&", "Parsed", "v22", "Some(", "v22", "v23", "Some(", "v23", "..", "=>", "v17", "NaiveDate", "from_isoywd_opt(", "v13", "v22", "v23", "v17", "v17", "ok_or(", "OUT_OF_RANGE", "?", "verify_ymd(", "v17", "&&", "verify_ordinal(", "v17", "v17", "v7", "v7", "v7", "=>", "return", "Err(", "NOT_ENOUGH", "if", "!", "v28", "return", "Err(", "IMPOSSIBLE", "else", "if", "Some(", "v30", "self", "v31", "if", "v30", "!=", "v29", "quarter(", "return", "Err(", "IMPOSSIBLE", "Ok(", "v29"] := by decide +kernel
+
+/-- callee src/format/parsed.rs:fn to_naive_time -/
+theorem callee_src_format_parsed_rs_fn_to_naive_time : C15_callee_src_format_parsed_rs_fn_to_naive_time =
+    ["&", "self", "->", "ParseResult", "<", "NaiveTime", ">", "v1", "match", "self", "v1", "Some(", "v2", "0", "..=", "1", "=>", "v2", "Some(", "v3", "=>", "return", "Err(", "OUT_OF_RANGE", "None", "=>", "return", "Err(", "NOT_ENOUGH", "v4", "match", "self", "v4", "Some(", "v2", "0", "..=", "11", "=>", "v2", "Some(", "v3", "=>", "return", "Err(", "OUT_OF_RANGE", "None", "=>", "return", "Err(", "NOT_ENOUGH", "v5", "v1", "*", "12", "+", "v4", "v6", "match", "self", "v6", "Some(", "v2", "0", "..=", "59", "=>", "v2", "Some(", "v3", "=>", "return", "Err(", "OUT_OF_RANGE", "None", "=>", "return", "Err(", "NOT_ENOUGH", "let(", "v7", "v8", "match", "self", "v7", "unwrap_or(", "0", "v2", "0", "..=", "59", "=>", "v2", "0", "60", "=>", "59", "1000000000", "v3", "=>", "return", "Err(", "OUT_OF_RANGE", "v8", "+=", "match", "self", "v9", "Some(", "v2", "0", "..=", "999999999", "if", "self", "v7", "is_some(", "=>", "v2", "Some(", "0", "..=", "999999999", "=>", "return", "Err(", "NOT_ENOUGH", "Some(", "v3", "=>", "return", "Err(", "OUT_OF_RANGE", "None", "=>", "0", "NaiveTime", "from_hms_nano_opt(", "v5", "v6", "v7", "v8", "ok_or(", "OUT_OF_RANGE"] := by decide +kernel
+
+/-- callee src/format/scan.rs:fn char -/
+theorem callee_src_format_scan_rs_fn_char : C15_callee_src_format_scan_rs_fn_char =
+    ["v1", "&", "str", "v2", "u8", "->", "ParseResult", "<", "&", "str", ">", "match", "v1", "as_bytes(", "first(", "Some(", "&", "v3", "if", "v3", "==", "v2", "=>", "Ok(", "&", "v1", "1", "..", "Some(", "v4", "=>", "Err(", "INVALID", "None", "=>", "Err(", "TOO_SHORT"] := by decide +kernel
+
+/-- callee src/format/scan.rs:fn digits -/
+theorem callee_src_format_scan_rs_fn_digits : C15_callee_src_format_scan_rs_fn_digits =
+    ["v1", "&", "str", "->", "ParseResult", "<", "u8", "u8", ">", "v2", "v1", "as_bytes(", "if", "v2", "len(", "<", "2", "Err(", "TOO_SHORT", "else", "Ok(", "v2", "0", "v2", "1"] := by decide +kernel
+
+/-- callee src/format/scan.rs:fn nanosecond_fixed -/
+theorem callee_src_format_scan_rs_fn_nanosecond_fixed : C15_callee_src_format_scan_rs_fn_nanosecond_fixed =
+    ["v1", "&", "str", "v2", "usize", "->", "ParseResult", "<", "&", "str", "i64", ">", "let(", "v1", "v3", "number(", "v1", "v2", "v2", "?", "SCALE", "i64", "10", "0", "100000000", "10000000", "1000000", "100000", "10000", "1000", "100", "10", "1", "v3", "v3", "checked_mul(", "SCALE", "v2", "ok_or(", "OUT_OF_RANGE", "?", "Ok(", "v1", "v3"] := by decide +kernel
+
+/-- callee src/format/scan.rs:fn number -/
+theorem callee_src_format_scan_rs_fn_number : C15_callee_src_format_scan_rs_fn_number =
+    ["v1", "&", "str", "v2", "usize", "v3", "usize", "->", "ParseResult", "<", "&", "str", "i64", ">", "assert!(", "v2", "<=", "v3", "v4", "v1", "as_bytes(", "if", "v4", "len(", "<", "v2", "return", "Err(", "TOO_SHORT", "v5", "0", "for(", "v6", "v7", "in", "v4", "iter(", "take(", "v3", "cloned(", "enumerate(", "if", "!", "v7", "is_ascii_digit(", "if", "v6", "<", "v2", "return", "Err(", "INVALID", "else", "return", "Ok(", "&", "v1", "v6", "..", "v5", "v5", "match", "v5", "checked_mul(", "10", "and_then(", "|", "v5", "|", "v5", "checked_add(", "v7", "-", "b'0'", "as", "i64", "Some(", "v5", "=>", "v5", "None", "=>", "return", "Err(", "OUT_OF_RANGE", "Ok(", "&", "v1", "v8", "v9", "min(", "v3", "v4", "len(", "..", "v5"] := by decide +kernel
+
+/-- callee src/format/scan.rs:fn short_or_long_month0 -/
+theorem callee_src_format_scan_rs_fn_short_or_long_month0 : C15_callee_src_format_scan_rs_fn_short_or_long_month0 =
+    ["v1", "&", "str", "->", "ParseResult", "<", "&", "str", "u8", ">", "LONG_MONTH_SUFFIXES", "&", "u8", "12", "b\"uary\"", "b\"ruary\"", "b\"ch\"", "b\"il\"", "b\"\"", "b\"e\"", "b\"y\"", "b\"ust\"", "b\"tember\"", "b\"ober\"", "b\"ember\"", "b\"ember\"", "let(", "v1", "v2", "short_month0(", "v1", "?", "v3", "LONG_MONTH_SUFFIXES", "v2", "as", "usize", "if", "v1", "len(", ">=", "v3", "len(", "&&", "v1", "as_bytes(", "..", "v3", "len(", "eq_ignore_ascii_case(", "v3", "v1", "&", "v1", "v3", "len(", "..", "Ok(", "v1", "v2"] := by decide +kernel
+
+/-- callee src/format/scan.rs:fn short_or_long_weekday -/
+theorem callee_src_format_scan_rs_fn_short_or_long_weekday : C15_callee_src_format_scan_rs_fn_short_or_long_weekday =
+    ["v1", "&", "str", "->", "ParseResult", "<", "&", "str", "Weekday", ">", "LONG_WEEKDAY_SUFFIXES", "&", "u8", "7", "b\"day\"", "b\"sday\"", "b\"nesday\"", "b\"rsday\"", "b\"day\"", "b\"urday\"", "b\"day\"", "let(", "v1", "v2", "short_weekday(", "v1", "?", "v3", "LONG_WEEKDAY_SUFFIXES", "v2", "num_days_from_monday(", "as", "usize", "if", "v1", "len(", ">=", "v3", "len(", "&&", "v1", "as_bytes(", "..", "v3", "len(", "eq_ignore_ascii_case(", "v3", "v1", "&", "v1", "v3", "len(", "..", "Ok(", "v1", "v2"] := by decide +kernel
+
+/-- callee src/format/scan.rs:fn space -/
+theorem callee_src_format_scan_rs_fn_space : C15_callee_src_format_scan_rs_fn_space =
+    ["v1", "&", "str", "->", "ParseResult", "<", "&", "str", ">", "v2", "v1", "trim_start(", "if", "v2", "len(", "<", "v1", "len(", "Ok(", "v2", "else", "if", "v1", "is_empty(", "Err(", "TOO_SHORT", "else", "Err(", "INVALID"] := by decide +kernel
+
+/-- callee src/format/scan.rs:fn timezone_offset_2822 -/
+theorem callee_src_format_scan_rs_fn_timezone_offset_2822 : C15_callee_src_format_scan_rs_fn_timezone_offset_2822 =
+    ["v1", "&", "str", "->", "ParseResult", "<", "&", "str", "i32", ">", "v2", "v1", "as_bytes(", "iter(", "position(", "|", "&", "v3", "|", "!", "v3", "is_ascii_alphabetic(", "unwrap_or(", "v1", "len(", "if", "v2", ">", "0", "v4", "&", "v1", "as_bytes(", "..", "v2", "v1", "&", "v1", "v2", "..", "v5", "|", "v6", "|", "Ok(", "v1", "v6", "*", "3600", "if", "v4", "eq_ignore_ascii_case(", "b\"gmt\"", "||", "v4", "eq_ignore_ascii_case(", "b\"ut\"", "||", "v4", "eq_ignore_ascii_case(", "b\"z\"", "return", "offset_hours(", "0", "else", "if", "v4", "eq_ignore_ascii_case(", "b\"edt\"", "return", "offset_hours(", "-", "4", "else", "if", "v4", "eq_ignore_ascii_case(", "b\"est\"", "||", "v4", "eq_ignore_ascii_case(", "b\"cdt\"", "return", "offset_hours(", "-", "5", "else", "if", "v4", "eq_ignore_ascii_case(", "b\"cst\"", "||", "v4", "eq_ignore_ascii_case(", "b\"mdt\"", "return", "offset_hours(", "-", "6", "else", "if", "v4", "eq_ignore_ascii_case(", "b\"mst\"", "||", "v4", "eq_ignore_ascii_case(", "b\"pdt\"", "return", "offset_hours(", "-", "7", "else", "if", "v4", "eq_ignore_ascii_case(", "b\"pst\"", "return", "offset_hours(", "-", "8", "else", "if", "v4", "len(", "==", "1", "if", "b'a'", "..=", "b'i'", "|", "b'k'", "..=", "b'y'", "|", "b'A'", "..=", "b'I'", "|", "b'K'", "..=", "b'Y'", "v4", "0", "return", "Ok(", "v1", "0", "Err(", "INVALID", "else", "timezone_offset(", "v1", "|", "v1", "|", "Ok(", "v1", "false", "false", "false"] := by decide +kernel
+
+/-- callee src/format/strftime.rs:fn switch_to_locale_str -/
+theorem callee_src_format_strftime_rs_fn_switch_to_locale_str : C15_callee_src_format_strftime_rs_fn_switch_to_locale_str =
+    ["&", "self", "v1", "Fn(", "Locale", "->", "&", "str", "v2", "&", "Item", "<", ">", "->", "Item", "<", ">", "if", "Some(", "v3", "self", "v3", "assert!(", "self", "v4", "is_empty(", "let(", "v5", "v6", "self", "parse_next_item(", "localized_fmt_str(", "v3", "unwrap(", "self", "v4", "v5", "v6", "else", "self", "v7", "&", "v2", "1", "..", "v2", "0", "clone("] := by decide +kernel
+
+/-- callee src/naive/date/mod.rs:fn cycle_to_yo -/
+theorem callee_src_naive_date_mod_rs_fn_cycle_to_yo : C15_callee_src_naive_date_mod_rs_fn_cycle_to_yo =
+    ["v1", "u32", "->", "u32", "u32", "v2", "v1", "/", "365", "v3", "v1", "%", "365", "v4", "YEAR_DELTAS", "v2", "as", "usize", "as", "u32", "if", "v3", "<", "v4", "v2", "-=", "1", "v3", "+=", "365", "-", "YEAR_DELTAS", "v2", "as", "usize", "as", "u32", "else", "v3", "-=", "v4", "v2", "v3", "+", "1"] := by decide +kernel
+
+/-- callee src/naive/date/mod.rs:fn div_mod_floor -/
+theorem callee_src_naive_date_mod_rs_fn_div_mod_floor : C15_callee_src_naive_date_mod_rs_fn_div_mod_floor =
+    ["v1", "i32", "v2", "i32", "->", "i32", "i32", "v1", "div_euclid(", "v2", "v1", "rem_euclid(", "v2"] := by decide +kernel
+
+/-- callee src/naive/date/mod.rs:fn from_mdf -/
+theorem callee_src_naive_date_mod_rs_fn_from_mdf : C15_callee_src_naive_date_mod_rs_fn_from_mdf =
+    ["v1", "i32", "v2", "Mdf", "->", "Option", "<", "NaiveDate", ">", "if", "v1", "<", "MIN_YEAR", "||", "v1", ">", "MAX_YEAR", "return", "None", "Some(", "NaiveDate", "from_yof(", "v1", "<<", "13", "|", "try_opt!(", "v2", "ordinal_and_flags("] := by decide +kernel
+
+/-- callee src/naive/date/mod.rs:fn from_ordinal_and_flags -/
+theorem callee_src_naive_date_mod_rs_fn_from_ordinal_and_flags : C15_callee_src_naive_date_mod_rs_fn_from_ordinal_and_flags =
+    ["v1", "i32", "v2", "u32", "v3", "YearFlags", "->", "Option", "<", "NaiveDate", ">", "if", "v1", "<", "MIN_YEAR", "||", "v1", ">", "MAX_YEAR", "return", "None", "if", "v2", "==", "0", "||", "v2", ">", "366", "return", "None", "debug_assert!(", "YearFlags", "from_year(", "v1", "==", "v3", "v4", "v1", "<<", "13", "|", "v2", "<<", "4", "as", "i32", "|", "v3", "as", "i32", "match", "v4", "&", "OL_MASK", "<=", "MAX_OL", "true", "=>", "Some(", "NaiveDate", "from_yof(", "v4", "false", "=>", "None"] := by decide +kernel
+
+/-- callee src/naive/date/mod.rs:fn from_ymd_opt -/
+theorem callee_src_naive_date_mod_rs_fn_from_ymd_opt : C15_callee_src_naive_date_mod_rs_fn_from_ymd_opt =
+    ["v1", "i32", "v2", "u32", "v3", "u32", "->", "Option", "<", "NaiveDate", ">", "v4", "YearFlags", "from_year(", "v1", "if", "Some(", "v5", "Mdf", "new(", "v2", "v3", "v4", "NaiveDate", "from_mdf(", "v1", "v5", "else", "None"] := by decide +kernel
+
+/-- callee src/naive/date/mod.rs:fn from_yo_opt -/
+theorem callee_src_naive_date_mod_rs_fn_from_yo_opt : C15_callee_src_naive_date_mod_rs_fn_from_yo_opt =
+    ["v1", "i32", "v2", "u32", "->", "Option", "<", "NaiveDate", ">", "v3", "YearFlags", "from_year(", "v1", "NaiveDate", "from_ordinal_and_flags(", "v1", "v2", "v3"] := by decide +kernel
+
+/-- callee src/naive/date/mod.rs:fn leap_year -/
+theorem callee_src_naive_date_mod_rs_fn_leap_year : C15_callee_src_naive_date_mod_rs_fn_leap_year =
+    ["&", "self", "->", "bool", "self", "yof(", "&", "8", "==", "0"] := by decide +kernel
+
+/-- callee src/naive/date/mod.rs:fn weeks_from -/
+theorem callee_src_naive_date_mod_rs_fn_weeks_from : C15_callee_src_naive_date_mod_rs_fn_weeks_from =
+    ["&", "self", "v1", "Weekday", "->", "i32", "self", "ordinal(", "as", "i32", "-", "self", "weekday(", "days_since(", "v1", "as", "i32", "+", "6", "/", "7"] := by decide +kernel
+
+/-- callee src/naive/date/mod.rs:fn yo_to_cycle -/
+theorem callee_src_naive_date_mod_rs_fn_yo_to_cycle : C15_callee_src_naive_date_mod_rs_fn_yo_to_cycle =
+    ["v1", "u32", "v2", "u32", "->", "u32", "v1", "*", "365", "+", "YEAR_DELTAS", "v1", "as", "usize", "as", "u32", "+", "v2", "-", "1"] := by decide +kernel
+
+/-- callee src/naive/date/mod.rs:fn yof -/
+theorem callee_src_naive_date_mod_rs_fn_yof : C15_callee_src_naive_date_mod_rs_fn_yof =
+    ["&", "self", "->", "i32", "self", "v1", "get("] := by decide +kernel
+
+/-- callee src/naive/datetime/mod.rs:fn and_utc -/
+theorem callee_src_naive_datetime_mod_rs_fn_and_utc : C15_callee_src_naive_datetime_mod_rs_fn_and_utc =
+    ["&", "self", "->", "DateTime", "<", "Utc", ">", "DateTime", "from_naive_utc_and_offset(", "*", "self", "Utc"] := by decide +kernel
+
+/-- callee src/naive/datetime/mod.rs:fn checked_sub_offset -/
+theorem callee_src_naive_datetime_mod_rs_fn_checked_sub_offset : C15_callee_src_naive_datetime_mod_rs_fn_checked_sub_offset =
+    ["self", "v1", "FixedOffset", "->", "Option", "<", "NaiveDateTime", ">", "let(", "v2", "v3", "self", "v2", "overflowing_sub_offset(", "v1", "v4", "match", "v3", "-", "1", "=>", "try_opt!(", "self", "v4", "pred_opt(", "1", "=>", "try_opt!(", "self", "v4", "succ_opt(", "v5", "=>", "self", "v4", "Some(", "NaiveDateTime", "v4", "v2"] := by decide +kernel
+
+/-- callee src/naive/internals.rs:fn from_year -/
+theorem callee_src_naive_internals_rs_fn_from_year : C15_callee_src_naive_internals_rs_fn_from_year =
+    ["v1", "i32", "->", "YearFlags", "v1", "v1", "rem_euclid(", "400", "YearFlags", "from_year_mod_400(", "v1"] := by decide +kernel
+
+/-- callee src/naive/internals.rs:fn from_year_mod_400 -/
+theorem callee_src_naive_internals_rs_fn_from_year_mod_400 : C15_callee_src_naive_internals_rs_fn_from_year_mod_400 =
+    ["v1", "i32", "->", "YearFlags", "YEAR_TO_FLAGS", "v1", "as", "usize"] := by decide +kernel
+
+/-- callee src/naive/internals.rs:fn isoweek_delta -/
+theorem callee_src_naive_internals_rs_fn_isoweek_delta : C15_callee_src_naive_internals_rs_fn_isoweek_delta =
+    ["&", "self", "->", "u32", "YearFlags(", "v1", "*", "self", "v2", "v1", "&", "7", "as", "u32", "if", "v2", "<", "3", "v2", "+=", "7", "v2"] := by decide +kernel
+
+/-- callee src/naive/internals.rs:fn ndays -/
+theorem callee_src_naive_internals_rs_fn_ndays : C15_callee_src_naive_internals_rs_fn_ndays =
+    ["&", "self", "->", "u32", "YearFlags(", "v1", "*", "self", "366", "-", "v1", ">>", "3", "as", "u32"] := by decide +kernel
+
+/-- callee src/naive/internals.rs:fn nisoweeks -/
+theorem callee_src_naive_internals_rs_fn_nisoweeks : C15_callee_src_naive_internals_rs_fn_nisoweeks =
+    ["&", "self", "->", "u32", "YearFlags(", "v1", "*", "self", "52", "+", "1030", ">>", "v1", "as", "usize", "&", "1"] := by decide +kernel
+
+/-- callee src/naive/internals.rs:fn ordinal_and_flags -/
+theorem callee_src_naive_internals_rs_fn_ordinal_and_flags : C15_callee_src_naive_internals_rs_fn_ordinal_and_flags =
+    ["&", "self", "->", "Option", "<", "i32", ">", "v1", "self", ">>", "3", "match", "MDL_TO_OL", "v1", "as", "usize", "XX", "=>", "None", "v2", "=>", "Some(", "self", "as", "i32", "-", "v2", "as", "i32", "<<", "3"] := by decide +kernel
+
+/-- callee src/naive/time/mod.rs:fn from_hms_nano_opt -/
+theorem callee_src_naive_time_mod_rs_fn_from_hms_nano_opt : C15_callee_src_naive_time_mod_rs_fn_from_hms_nano_opt =
+    ["v1", "u32", "v2", "u32", "v3", "u32", "v4", "u32", "->", "Option", "<", "NaiveTime", ">", "if(", "v1", ">=", "24", "||", "v2", ">=", "60", "||", "v3", ">=", "60", "||", "v4", ">=", "1000000000", "&&", "v3", "!=", "59", "||", "v4", ">=", "2000000000", "return", "None", "v5", "v1", "*", "3600", "+", "v2", "*", "60", "+", "v3", "Some(", "NaiveTime", "v5", "v6", "v4"] := by decide +kernel
+
+/-- callee src/naive/time/mod.rs:fn hms -/
+theorem callee_src_naive_time_mod_rs_fn_hms : C15_callee_src_naive_time_mod_rs_fn_hms =
+    ["&", "self", "->", "u32", "u32", "u32", "v1", "self", "v2", "%", "60", "v3", "self", "v2", "/", "60", "v4", "v3", "%", "60", "v5", "v3", "/", "60", "v5", "v4", "v1"] := by decide +kernel
+
+/-- callee src/offset/mod.rs:fn from_local_datetime -/
+theorem callee_src_offset_mod_rs_fn_from_local_datetime : C15_callee_src_offset_mod_rs_fn_from_local_datetime =
+    ["&", "self", "v1", "&", "NaiveDateTime", "->", "MappedLocalTime", "<", "DateTime", "<", "Self", ">>", "self", "offset_from_local_datetime(", "v1", "and_then(", "|", "v2", "|", "v1", "checked_sub_offset(", "v2", "fix(", "map(", "|", "v3", "|", "DateTime", "from_naive_utc_and_offset(", "v3", "v2"] := by decide +kernel
+
+/-- callee src/time_delta.rs:fn div_mod_floor_64 -/
+theorem callee_src_time_delta_rs_fn_div_mod_floor_64 : C15_callee_src_time_delta_rs_fn_div_mod_floor_64 =
+    ["v1", "i64", "v2", "i64", "->", "i64", "i64", "v1", "div_euclid(", "v2", "v1", "rem_euclid(", "v2"] := by decide +kernel
+
+/-- callee src/time_delta.rs:fn try_seconds -/
+theorem callee_src_time_delta_rs_fn_try_seconds : C15_callee_src_time_delta_rs_fn_try_seconds =
+    ["v1", "i64", "->", "Option", "<", "TimeDelta", ">", "TimeDelta", "new(", "v1", "0"] := by decide +kernel
+
+/-- callee src/weekday.rs:fn days_since -/
+theorem callee_src_weekday_rs_fn_days_since : C15_callee_src_weekday_rs_fn_days_since =
+    ["&", "self", "v1", "Weekday", "->", "u32", "v2", "*", "self", "as", "u32", "v3", "v1", "as", "u32", "if", "v2", "<", "v3", "7", "+", "v2", "-", "v3", "else", "v2", "-", "v3"] := by decide +kernel
+
+/-- callee src/weekday.rs:fn num_days_from_monday -/
+theorem callee_src_weekday_rs_fn_num_days_from_monday : C15_callee_src_weekday_rs_fn_num_days_from_monday =
+    ["&", "self", "->", "u32", "self", "days_since(", "Weekday", "Mon"] := by decide +kernel
+
 end Chrono.Pins.C15
